@@ -1371,3 +1371,256 @@ func c15r15(rc *core.RC) {
 		rc.Bad(key, fd.Pos(), "no store `nameMap[set.key] = set` found in compileStruct: fields are not registered under their exact key (exact match first cannot hold when keys differ only in case)")
 	}
 }
+
+// ---- C15.R16 / C01.R13 / C03.R5 embedded structs in the encoder's compiler ----
+
+// anonymousPredicate returns the function the encoder's compiler uses to decide that a field is a flattened embedded
+// struct (the callee in `isAnonymous: F(tag)` of the StructFieldCode literal), or nil.
+func anonymousPredicate(p *core.Program) *types.Func {
+	fd := p.Func("encoder", "Compiler.structFieldCode")
+	if fd == nil || fd.Body == nil {
+		return nil
+	}
+	info := p.Info(fd)
+	var f *types.Func
+	ast.Inspect(fd.Body, func(m ast.Node) bool {
+		kv, ok := m.(*ast.KeyValueExpr)
+		if !ok {
+			return true
+		}
+		if id, isIdent := kv.Key.(*ast.Ident); isIdent && id.Name == "isAnonymous" {
+			if c, isCall := core.Unparen(kv.Value).(*ast.CallExpr); isCall {
+				f = core.Callee(info, c)
+			}
+		}
+		return true
+	})
+	return f
+}
+
+// C15.R16: the names with which an outer struct hides promoted members are the names of its own members. A flattened
+// embedded struct has no member name: its tag must not be among those handed to removeFieldsByTags.
+func c15r16(rc *core.RC) {
+	p := rc.P
+	fd := p.Func("encoder", "Compiler.structCode")
+	if fd == nil || fd.Body == nil {
+		rc.Unknown("encoder.(*Compiler).structCode/hiding-names", token.NoPos, "structCode not found")
+		return
+	}
+	rc.Touch("encoder.(*Compiler).structCode")
+	info := p.Info(fd)
+	pred := anonymousPredicate(p)
+	// the full tag list: what the field loop ranges over
+	full := map[types.Object]bool{}
+	ast.Inspect(fd.Body, func(m ast.Node) bool {
+		if rs, ok := m.(*ast.RangeStmt); ok {
+			hasFieldCode := false
+			ast.Inspect(rs.Body, func(k ast.Node) bool {
+				if c, isCall := k.(*ast.CallExpr); isCall && strings.HasSuffix(core.CalleeName(info, c), "structFieldCode") {
+					hasFieldCode = true
+				}
+				return true
+			})
+			if hasFieldCode {
+				if o := core.ObjOf(info, rs.X); o != nil {
+					full[o] = true
+				}
+			}
+		}
+		return true
+	})
+	n := 0
+	ast.Inspect(fd.Body, func(m ast.Node) bool {
+		c, ok := m.(*ast.CallExpr)
+		if !ok || len(c.Args) != 1 {
+			return true
+		}
+		sel, isSel := c.Fun.(*ast.SelectorExpr)
+		if !isSel || sel.Sel.Name != "removeFieldsByTags" {
+			return true
+		}
+		n++
+		key := fmt.Sprintf("encoder.(*Compiler).structCode/removeFieldsByTags#%d own-member-names-only", n)
+		arg := core.ObjOf(info, c.Args[0])
+		if arg == nil {
+			rc.Unknown(key, c.Pos(), "argument is not a variable")
+			return true
+		}
+		if full[arg] {
+			rc.Bad(key, c.Pos(), "the members of an embedded struct are pruned with the tags of every field of the outer struct, the embedding itself included: an embedded struct named like one of its own members hides that member (struct{ PBase } with type PBase struct{ PBase int } is encoded as {})")
+			return true
+		}
+		// every append to the list is under the negated predicate
+		okAll, any := true, false
+		ast.Inspect(fd.Body, func(k ast.Node) bool {
+			ifs, isIf := k.(*ast.IfStmt)
+			if !isIf {
+				return true
+			}
+			for _, st := range ifs.Body.List {
+				as, isAs := st.(*ast.AssignStmt)
+				if !isAs || len(as.Lhs) != 1 || core.ObjOf(info, as.Lhs[0]) != arg {
+					continue
+				}
+				any = true
+				u, isNot := core.Unparen(ifs.Cond).(*ast.UnaryExpr)
+				if !isNot || u.Op != token.NOT {
+					okAll = false
+					continue
+				}
+				pc, isCall := core.Unparen(u.X).(*ast.CallExpr)
+				if !isCall || pred == nil || core.Callee(info, pc) != pred {
+					okAll = false
+				}
+			}
+			return true
+		})
+		rc.Check(any && okAll, key, c.Pos(), "the list of hiding names is filled only with tags for which %s, the test that makes a field a flattened embedded struct, is false", func() string {
+			if pred != nil {
+				return pred.Name()
+			}
+			return "the anonymity predicate"
+		}())
+		return true
+	})
+	if n < 1 {
+		rc.Unknown("encoder.(*Compiler).structCode/hiding-names", token.NoPos, "no removeFieldsByTags call found in structCode")
+	}
+}
+
+// C01.R13: options on the embedding of a flattened struct have no effect (encoding/json ignores them). The omitempty
+// and string variants of the struct field opcodes write the member key without looking at the anonymous flag, so a
+// flattened embedded struct must not reach them: in structFieldCode the tag kept for such a field has both options
+// cleared.
+func c01r13(rc *core.RC) {
+	p := rc.P
+	fd := p.Func("encoder", "Compiler.structFieldCode")
+	key := "encoder.(*Compiler).structFieldCode/embedded-struct-has-no-options"
+	if fd == nil || fd.Body == nil {
+		rc.Unknown(key, token.NoPos, "structFieldCode not found")
+		return
+	}
+	rc.Touch("encoder.(*Compiler).structFieldCode")
+	info := p.Info(fd)
+	found := false
+	var at token.Pos
+	ast.Inspect(fd.Body, func(m ast.Node) bool {
+		ifs, ok := m.(*ast.IfStmt)
+		if !ok || found {
+			return true
+		}
+		mentions := false
+		ast.Inspect(ifs.Cond, func(k ast.Node) bool {
+			if sel, isSel := k.(*ast.SelectorExpr); isSel && sel.Sel.Name == "isAnonymous" {
+				mentions = true
+			}
+			return true
+		})
+		if !mentions {
+			return true
+		}
+		cleared := map[string]types.Object{}
+		var stored types.Object
+		for _, st := range ifs.Body.List {
+			as, isAs := st.(*ast.AssignStmt)
+			if !isAs || len(as.Lhs) != 1 || len(as.Rhs) != 1 {
+				continue
+			}
+			if sel, isSel := core.Unparen(as.Lhs[0]).(*ast.SelectorExpr); isSel {
+				if v := core.ConstValue(info, as.Rhs[0]); v != nil && v.String() == "false" && (sel.Sel.Name == "IsOmitEmpty" || sel.Sel.Name == "IsString") {
+					cleared[sel.Sel.Name] = core.ObjOf(info, sel.X)
+				}
+				if sel.Sel.Name == "tag" {
+					if u, isAddr := core.Unparen(as.Rhs[0]).(*ast.UnaryExpr); isAddr && u.Op == token.AND {
+						stored = core.ObjOf(info, u.X)
+					}
+				}
+			}
+		}
+		if stored != nil && cleared["IsOmitEmpty"] == stored && cleared["IsString"] == stored {
+			found = true
+			at = ifs.Pos()
+		}
+		return true
+	})
+	if found {
+		rc.OK(key, at, "for a flattened embedded struct the tag kept in the field code has omitempty and string cleared")
+		return
+	}
+	// the other way to get there: the opcode choosers look at anonymity themselves
+	alt := 0
+	for _, name := range []string{"optimizeStructHeader", "optimizeStructField"} {
+		if g := p.Func("encoder", name); g != nil && g.Body != nil {
+			ast.Inspect(g.Body, func(k ast.Node) bool {
+				if id, isIdent := k.(*ast.Ident); isIdent && strings.Contains(strings.ToLower(id.Name), "anonymous") {
+					alt++
+					return false
+				}
+				return true
+			})
+		}
+	}
+	if alt >= 2 {
+		rc.OK(key, fd.Pos(), "optimizeStructHeader and optimizeStructField look at the field's anonymity before choosing an omitempty/string opcode")
+		return
+	}
+	rc.Bad(key, fd.Pos(), "a flattened embedded struct keeps the options of its embedding (json:\",omitempty\"): the omitempty/string variants of the struct field opcodes write the embedding's name as a member key and the members of the embedded struct after it, without a value in between (struct{ A int; In `json:\",omitempty\"`; B int } gives {\"A\":1,\"In\":\"X\":2,\"B\":3})")
+}
+
+// C03.R5: an embedded struct that leads back to a struct it is embedded in (type T struct{ *T; N int }) has no program
+// of its own to flatten: every member it could add is hidden by the same member at the shallower depth. Where the
+// compiler walks embedded structs (structCode, removeFieldsByTags) such a field has to be dropped.
+func c03r5(rc *core.RC) {
+	p := rc.P
+	n := 0
+	for _, name := range []string{"Compiler.structCode", "StructCode.removeFieldsByTags"} {
+		fd := p.Func("encoder", name)
+		key := "encoder." + name + "/recursive-embedded-struct-dropped"
+		if fd == nil || fd.Body == nil {
+			rc.Unknown(key, token.NoPos, "not found")
+			continue
+		}
+		n++
+		rc.Touch(p.FuncName(fd))
+		// inside the loop over fields: if <struct of the anonymous field>.isRecursive { continue } before the field is kept
+		found := false
+		var at token.Pos
+		ast.Inspect(fd.Body, func(m ast.Node) bool {
+			ifs, ok := m.(*ast.IfStmt)
+			if !ok || found {
+				return true
+			}
+			positive := false
+			var conj func(e ast.Expr)
+			conj = func(e ast.Expr) {
+				e = core.Unparen(e)
+				if be, isBin := e.(*ast.BinaryExpr); isBin && be.Op == token.LAND {
+					conj(be.X)
+					conj(be.Y)
+					return
+				}
+				if sel, isSel := e.(*ast.SelectorExpr); isSel && sel.Sel.Name == "isRecursive" {
+					positive = true
+				}
+			}
+			conj(ifs.Cond)
+			if !positive || len(ifs.Body.List) == 0 {
+				return true
+			}
+			if br, isBr := ifs.Body.List[len(ifs.Body.List)-1].(*ast.BranchStmt); isBr && br.Tok == token.CONTINUE {
+				found = true
+				at = ifs.Pos()
+			}
+			return true
+		})
+		rc.Check(found, key, func() token.Pos {
+			if found {
+				return at
+			}
+			return fd.Pos()
+		}(), "an embedded struct whose code is marked recursive is skipped (continue) in the loop over the fields: a struct that embeds itself adds no member and no opcode (type E struct{ *E; N int } gave {{null,\"N\":1},\"N\":2}, which is not JSON)")
+	}
+	if n < 2 {
+		rc.Unknown("encoder/embedded-struct-walkers", token.NoPos, "found %d of structCode and removeFieldsByTags", n)
+	}
+}
